@@ -253,6 +253,7 @@ func scenarioC12(c *hlib.RunCtx) *hlib.Violation {
 	os.WriteFile(filepath.Join(c.Dir, "outside.txt"), []byte("outside"), 0666)
 	h, bucketDir := newServer(storeDir, cfg)
 	model := map[string]*report{} // object name -> report
+	var accepted []*report
 	nreq := 3 + t.Draw(12)
 	var cases []string
 	c.Note("nontrivial")
@@ -263,6 +264,16 @@ func scenarioC12(c *hlib.RunCtx) *hlib.Violation {
 		}
 		big := t.Bool(1, 8)
 		r := genReport(t, cfg.Ref, big)
+		// the same week and X again (the same object name), with other content:
+		// what is stored afterwards is the later report and nothing of the earlier
+		if len(accepted) > 0 && t.Bool(1, 5) {
+			prev := accepted[t.Draw(len(accepted))]
+			r.Week, r.X = prev.Week, prev.X
+			if t.Bool(1, 2) && len(r.Programs) > 1 {
+				r.Programs = r.Programs[:1]
+			}
+			s.Probe("same-week-and-x-again")
+		}
 		wantValid := true
 		why := "valid"
 		var body []byte
@@ -470,6 +481,7 @@ func scenarioC12(c *hlib.RunCtx) *hlib.Violation {
 				break
 			}
 			model[name] = r
+			accepted = append(accepted, r)
 			data, err := os.ReadFile(filepath.Join(bucketDir, filepath.FromSlash(name)))
 			if err != nil {
 				fail("object-missing", "valid report answered 200 but object %s does not exist: %v", name, err)
